@@ -89,6 +89,14 @@ def _seams_off():
         u._process_start_wrapper.__wrapped__ = _ORIG["wrapped"]
 
 
+class _Silent:
+    """Reply timing for one get: the terminal stays silent until the query has timed out (the last
+    alternative of VTty's menu); the replies stay in transit."""
+
+    def choose(self, n, label=None, costs=None):
+        return n - 1
+
+
 class ProbeFailure(Exception):
     """Raised by a probe body that was told to fail."""
 
@@ -109,6 +117,16 @@ class Impl:
         self.tty = world.setup("kitty", e.cols, e.rows)
         # standard output is not the active terminal: shutil.get_terminal_size() reports this constant
         self.tty.stdout_size = _STDOUT
+        # replies nobody waited for (a query that timed out) have arrived by the time the next query starts
+        tty = self.tty
+        plain_tcsetattr = tty.tcsetattr
+
+        def tcsetattr(fd, when, attrs):
+            if tty.pending and when != world._real_termios.TCSANOW:
+                tty._deliver(len(tty.pending), 0.0)
+            return plain_tcsetattr(fd, when, attrs)
+
+        tty.tcsetattr = tcsetattr
         # op "start": the real _process_start_wrapper on a process object that starts nothing
         u.mp_RLock, u.Array = sched.HProcLock, sched.HArray
         u._process_start_wrapper.__wrapped__ = lambda proc, *a, **k: None
@@ -207,6 +225,14 @@ class Impl:
                 return "interrupted"
             finally:
                 t.fault = None
+        elif k == "cell_size_silent":
+            t = self.tty
+            t.chooser = _Silent()
+            try:
+                r = u.get_cell_size()
+            finally:
+                t.chooser = None
+            return None if r is None else tuple(r)
         elif k == "cell_ratio":
             return ti.get_cell_ratio()
         elif k == "colors":
@@ -252,7 +278,8 @@ class Impl:
         L = self.L
         u, ti = L.utils, L.ti
         isk = L.common.TextImage.__dict__.get("_is_on_kitty")
-        return (self.e, self.fail_next, type(u._cell_size_cache).__name__, tuple(u._cell_size_cache), u._queries_enabled, u._swap_win_size, ti._cell_ratio,
+        return (self.e, self.fail_next, tuple(bytes(d) for _, d in self.tty.pending), bytes(self.tty.inq),
+                type(u._cell_size_cache).__name__, tuple(u._cell_size_cache), u._queries_enabled, u._swap_win_size, ti._cell_ratio,
                 ti.AutoCellRatio.is_supported, closure_state(u.get_fg_bg_colors),
                 closure_state(u.get_terminal_name_version), closure_state(isk), closure_state(self.tsc),
                 closure_state(self.cached))
@@ -306,6 +333,8 @@ def alphabet(group, nenv):
     if group == "cell":
         return res + sw + qu + a + [["cell_size_int", k, "kbd"] for k in (1, 2, 5, 9, 13, 40, 67)] + \
             [["cell_size_int", k, "termios"] for k in (4, 66)]
+    if group == "cell-late":
+        return res + qu + [["cell_size"], ["cell_size_silent"], ["ratio", "DYNAMIC"], ["cell_ratio"]]
     if group == "cell-large":
         return res + sw + qu + a + [["cell_size_int", k, "kbd"] for k in list(range(1, 16)) + [40, 65, 66, 67]] + \
             [["cell_size_int", k, "termios"] for k in (2, 3, 4, 7, 8, 9, 66, 67)]
@@ -324,6 +353,8 @@ def searches(tier):
     """(name, alphabet group, environment indices, depth bound or None = fixpoint, merged?)"""
     small = [("cell", "cell", [0, 1, 2, 7], None, True),
              ("query-memos", "query-memos", [0], None, True),
+             # a query times out, its replies arrive before the next query (after a resize)
+             ("cell-late", "cell-late", [0, 8], None, True),
              ("probes", "probes", [0, 1, 2], None, True),
              # standard output redirected: the library's get_terminal_size() and shutil's disagree
              ("probes-redirected", "probes", [0, 1, 2], None, True)]
@@ -473,6 +504,7 @@ def thread_harnesses(tier):
          dict(name="cell-size-first-calls", calls=[["s"], ["s"]], bound=b),
          dict(name="tsc-call-vs-invalidate", calls=[["t"], ["ti"]], bound=b),
          dict(name="cached-call-vs-invalidate", calls=[["c", 0], ["ci"], ["c", 0]], bound=b),
+         dict(name="cell-size-vs-swap-toggle", calls=[["ss"], ["swss"]], swap_race=True, bound=2),
          dict(name="requery-name-vs-enable", calls=[["n"], ["eq"]], requery=True, bound=2),
          dict(name="requery-colors-vs-enable", calls=[["fq"], ["eq"]], requery=True, bound=2),
          dict(name="cell-size-start-race", calls=[["s"], ["start"]], child=[["s"]], bound=2, method="fork"),
@@ -552,6 +584,13 @@ def t_execute(spec, prefix=()):
                 r = fns[pid]["n"]()
             elif k == "eq":
                 r = L.ti.enable_queries()
+            elif k == "ss":
+                r = mod.get_cell_size()
+                r = None if r is None else tuple(r)
+            elif k == "swss":
+                L.ti.enable_win_size_swap()
+                r = mod.get_cell_size()
+                r = None if r is None else tuple(r)
             elif k == "s":
                 r = mod.get_cell_size()
                 r = None if r is None else tuple(r)
@@ -567,6 +606,9 @@ def t_execute(spec, prefix=()):
         model.process(0, 1, lambda model, proc: prog(1, spec["child"], "child"), spec["method"])
     try:
         s.run()
+        if spec.get("swap_race") and not s.deadlock and not any(t.exc is not None for t in s.tasks):
+            r = u0.get_cell_size()
+            st.final = (None if r is None else tuple(r), u0._swap_win_size)
         if spec.get("requery") and not s.deadlock and not any(t.exc is not None for t in s.tasks):
             # afterwards (no concurrency any more) a get must see the terminal, not the "queries disabled" answer
             st.final = (fns[0]["n"](), fns[0]["f"](hex=True), u0._queries_enabled)
@@ -624,6 +666,12 @@ def t_judge(col, spec, ch, s, model, tty, st, case=None):
                  f"enable_queries(), the getters return (name, colours, queries enabled) = {st.final}, a fresh "
                  f"computation gives {want}: a result obtained while queries were disabled survived re-enabling",
                  fn="name" if st.final[0] != want[0] else "colors" if st.final[1] != want[1] else "switch")
+    if spec.get("swap_race"):
+        want = (M.fresh_cell(M.ENVS[0], True, True), True)
+        if st.final != want:
+            viol("swap-toggle-race", f"after get_cell_size() raced with enable_win_size_swap(), a later get returns "
+                 f"(cell size, swap enabled) = {st.final}; for the final settings a fresh computation gives {want}: "
+                 f"a value computed under the old setting was memoized after the toggle's invalidation")
     if tty.inq or tty.pending:
         viol("unread", f"unread replies {bytes(tty.inq)!r} {tty.pending}")
     if len(st.results) != len(spec["calls"]) + len(spec.get("child", ())):
